@@ -70,11 +70,15 @@ func c02Token(r *Rng, k Kind, pay *Payloads, class int) string {
 		return r.Pick(HostilePlain)
 	case 14: // Bundling: the option as a letter of a bundle, with flags and another argument-taking letter around it
 		return r.Pick([]string{"-m", "-fm", "-mf", "-sm", "-ms", "-fsm", "-mm", "-smf"})
+	case 15: // the empty string: a well-formed string element, not a number, not key=value, not option-looking
+		return ""
+	case 16: // a mistyped option with three dashes: option-looking, never a value
+		return "---zz" + pay.Int()
 	}
 	return pay.Pos()
 }
 
-const c02NClasses = 15
+const c02NClasses = 17
 
 type c02Model struct {
 	items      []*Item
@@ -214,6 +218,9 @@ func c02Interpret(t *Tree, multi *Opt, argv []string) (*Scenario, bool) {
 			if tok == "-" {
 				name = "-"
 			}
+			if strings.HasPrefix(tok, "---") {
+				name = "\x00" + name
+			}
 			s.Items = append(s.Items, &Item{K: IUnk, UnkNames: []string{name}, Tokens: []string{tok}, Level: node.Path})
 			i++
 		default:
@@ -250,7 +257,7 @@ type c02Case struct {
 
 var c02MinMax = [][2]int{{1, 1}, {1, 2}, {1, 3}, {1, 4}, {2, 2}, {2, 3}, {2, 4}, {3, 3}, {3, 4}, {4, 4}, {1, 9}, {2, 1 << 62}} // the last one: max used as "unlimited"
 
-// grid size: kind(4) x minmax(12) x attached(2) x nPre(0..3 well-formed before the probe) x probe class(14) x position(2)
+// grid size: kind(4) x minmax(12) x attached(2) x nPre(0..3 well-formed before the probe) x probe class(17) x position(2)
 const c02Grid = 4 * 12 * 2 * 4 * c02NClasses * 2 // kind x (min,max) x attached x pre x probe x position
 
 func c02Build(seed uint64, idx int, tier string) *c02Case {
@@ -315,7 +322,7 @@ func c02Build(seed uint64, idx int, tier string) *c02Case {
 			c.argv = append(c.argv, "--multi")
 		}
 		for i := 0; i < n/occ+1; i++ {
-			cl := r.Weighted([]int{8, 2, 2, 2, 2, 2, 1, 1, 1, 1, 2, 1, 1, 2, 1})
+			cl := r.Weighted([]int{8, 2, 2, 2, 2, 2, 1, 1, 1, 1, 2, 1, 1, 2, 1, 1, 1})
 			if cl == 14 && c.mode != 1 {
 				cl = 4 // bundles only exist in Bundling mode
 			}
@@ -329,9 +336,9 @@ func c02Build(seed uint64, idx int, tier string) *c02Case {
 func init() {
 	fw.Register(&fw.Check{
 		ID:             "C02",
-		ExhaustivePart: "the grid kind(4) x (min,max)(12) x attached(2) x preceding elements(0-3) x probe class(15) x position(2) is enumerated completely in both tiers (payload texts are sampled)",
+		ExhaustivePart: "the grid kind(4) x (min,max)(12) x attached(2) x preceding elements(0-3) x probe class(17) x position(2) is enumerated completely in both tiers (payload texts are sampled)",
 		Technique:      "runtime monitor: local consumption model (the statement, literally) deciding which tokens a multi-value occurrence takes, compared with what the real Parse stored (values in order, conversions, ranges, map split) and left over (remaining, flag, command)",
-		Rule: "quick enumerates the grid kind(4) x (min,max)(12) x attached(2) x well-formed elements before the probe(0-3) x probe token class(15: element, number, float, key=value, word, known flag, unknown option, `-`, `--`, command name, int range, further occurrence attached/detached, hostile text, Bundling-mode bundle holding the option with flags and another argument-taking letter) x position(2) completely; " +
+		Rule: "quick enumerates the grid kind(4) x (min,max)(12) x attached(2) x well-formed elements before the probe(0-3) x probe token class(17: element, number, float, key=value, word, known flag, unknown option, `-`, `--`, command name, int range, further occurrence attached/detached, hostile text, Bundling-mode bundle holding the option with flags and another argument-taking letter, the empty string, a three-dash option) x position(2) completely; " +
 			"thorough adds random runs of up to 3 occurrences with up to 9 following tokens. distinct = distinct argv shapes; non-trivial = the occurrence takes at least one detached token or stops before max. Definitions with min<1 or max<min must panic (sub-check).",
 		Assumptions: []string{"int ranges a..b with a>=b in accepted positions are generated but only the universal monitors apply (statement silent)"},
 		Cases:       func(tier string) int { return tierN(tier, c02Grid+40000, c02Grid+6000000) },
